@@ -11,10 +11,13 @@ import (
 	"io/ioutil"
 	"log"
 	"os"
+	"os/signal"
 	"path/filepath"
 	"reflect"
 	"strings"
+	"syscall"
 	"testing"
+	"time"
 )
 
 type oCase struct {
@@ -158,4 +161,54 @@ func TestVerifOptions(t *testing.T) {
 		}
 		enc.Encode(oRun(c, dir))
 	}
+}
+
+// TestVerifOptionsReload: the whole GetOptions() as main() calls it, then a SIGHUP to this process (caught by the driver
+// as well, so that a collector that does not handle the signal is not killed by it), then the same options again: a
+// setting given on the command line is the command line's for as long as the process runs, whatever is re-read later.
+func TestVerifOptionsReload(t *testing.T) {
+	out := os.Getenv("VERIF_OUT")
+	if out == "" || os.Getenv("VERIF_RELOAD") == "" {
+		t.Skip("driver: VERIF_RELOAD not set")
+	}
+	dir, err := ioutil.TempDir("", "verif-c17r")
+	if err != nil {
+		t.Fatal(err)
+	}
+	defer os.RemoveAll(dir)
+	for _, kv := range os.Environ() {
+		if strings.HasPrefix(kv, "VFLOW_") {
+			os.Unsetenv(strings.SplitN(kv, "=", 2)[0])
+		}
+	}
+	os.Setenv("VFLOW_SFLOW_WORKERS", "33")
+	cfg := filepath.Join(dir, "vflow.conf")
+	ioutil.WriteFile(cfg, []byte("ipfix-workers: 11\nipfix-tpl-cache-file: /f/ipfix.templates\nverbose: false\nnetflow9-workers: 12\nsflow-workers: 13\nlog-file: \"\"\n"), 0644)
+	flag.CommandLine = flag.NewFlagSet("vflow", flag.ContinueOnError)
+	flag.CommandLine.SetOutput(ioutil.Discard)
+	saved := os.Args
+	os.Args = []string{"vflow", "-config", cfg, "-ipfix-workers", "22", "-ipfix-tpl-cache-file", "/c/ipfix.templates", "-verbose=true",
+		"-pid-file", filepath.Join(dir, "vflow.pid")}
+	defer func() { os.Args = saved }()
+	hup := make(chan os.Signal, 4)
+	signal.Notify(hup, syscall.SIGHUP)
+	defer signal.Stop(hup)
+	o := GetOptions()
+	o.Logger.SetOutput(ioutil.Discard)
+	snap := func() map[string]interface{} {
+		return map[string]interface{}{"ipfix-workers": o.IPFIXWorkers, "ipfix-tpl-cache-file": o.IPFIXTplCacheFile, "verbose": o.Verbose,
+			"netflow9-workers": o.NetflowV9Workers, "sflow-workers": o.SFlowWorkers}
+	}
+	before := snap()
+	for k := 0; k < 2; k++ {
+		syscall.Kill(os.Getpid(), syscall.SIGHUP)
+		select {
+		case <-hup:
+		case <-time.After(2 * time.Second):
+		}
+		time.Sleep(300 * time.Millisecond)
+	}
+	after := snap()
+	b, _ := json.Marshal(map[string]interface{}{"before": before, "after": after})
+	ioutil.WriteFile(out, b, 0644)
 }
